@@ -373,6 +373,15 @@ contract(MW, "DatasetWriting.write_config", props=["C04", "C05", "C06", "C08", "
     verify=False, assumed=True,
     note="bounded stand-in for now: the grouping / recursive merge (merge_shard_infos) is checked by history sweeps in harness/c_metadata.py")
 
+# in-repo callees of write_config that are covered by its assumed contract: registered so
+# that a change of their source is noticed (the bounded stage audited THIS source text)
+contract("sedpack/io/merge_shard_infos.py", "merge_shard_infos", props=["C04", "C05", "C06", "C08", "C09", "C16"],
+    params={"updates": "list:ref:ShardListInfo", "dataset_root": "U", "common": "int", "hashes": "list:U"},
+    returns="ref:ShardListInfo", verify=False, assumed=True,
+    note="bounded stand-in (history sweeps in harness/c_metadata.py); covered by the assumed contract of DatasetWriting.write_config")
+contract(MW, "DatasetWriting.write_multiprocessing", props=["C09", "C04"], params={}, verify=False, assumed=True,
+    note="bounded stand-in (real worker processes in harness/c_metadata.py check_parallel_writers); Pool plumbing is outside the subset")
+
 # ---- DatasetFiller.__exit__ -----------------------------------------------------------
 macro("FINV_OPEN1", ["c", "s"], "FINV1(c, s)")
 contract(MF, MFD + ".__exit__", props=["C10", "C04", "C06", "C09", "C08"],
@@ -407,7 +416,8 @@ contract(MF, MFD + ".__exit__", props=["C10", "C04", "C06", "C09", "C08"],
         "DISK_OK(self._dataset.path)",
         "forall(lambda s: implies(s in FCTX(self)._shards_lists, SAFE(s)), s='U')",
         # splits not yet visited are still in the open state; visited ones with examples are closed
-        "forall(lambda s: implies(s in FCTX(self)._current_shards_progress and dictidx(FCTX(self)._current_shards_progress, s) >= _k, FINV1(FCTX(self), s)), s='U')",
+    ] + ["forall(lambda s: implies(s in FCTX(self)._current_shards_progress and dictidx(FCTX(self)._current_shards_progress, s) >= _k, %s), s='U')"
+         % q.replace("C_", "FCTX(self)") for q in FINV1_PARTS()] + [
         "forall(lambda s, t: implies(s in FCTX(self)._current_shards_progress and t in FCTX(self)._current_shards_progress and s != t,"
         "   fprog(FCTX(self), s) is not fprog(FCTX(self), t) and fprog(FCTX(self), s).shard is not fprog(FCTX(self), t).shard"
         "   and fprog(FCTX(self), s).shard.shard_info is not fprog(FCTX(self), t).shard.shard_info"
